@@ -10,10 +10,10 @@ Lemma nth_absl l j : nth j (map abs l) None = abs (nth j l Empty).
 Proof. change None with (abs Empty). apply map_nth. Qed.
 
 Lemma abs_none s : abs s = None -> s = Empty.
-Proof. destruct s; cbn; congruence. Qed.
+Proof. destruct s as [| | |[]]; cbn; congruence. Qed.
 
 Lemma is_empty_abs s : is_empty s = is_none (abs s).
-Proof. destruct s; reflexivity. Qed.
+Proof. destruct s as [| | |[]]; reflexivity. Qed.
 
 Definition ref1 (f : storage -> ledger -> outcome * storage * ledger)
   (g : option oval -> outcome * option oval) : Prop :=
@@ -50,31 +50,40 @@ Qed.
 Ltac ifs' :=
   repeat match goal with |- context [if ?c then _ else _] => destruct c end.
 
+Ltac d2 s := destruct s as [| | |[]].
+
 Lemma sstep_refines sbo op st : step_refines (sstep sbo op st) (sspec op (absl st)).
 Proof.
   destruct op; cbn [sstep sspec]; first [apply op1_ref | apply op2_ref].
   - intros s L. unfold w_store, s_store, mk, move_obj, copy_obj, fresh_obj.
     destruct s, mv, ctor; cbn; ifs'; reflexivity.
-  - intros a b L. unfold w_move, s_move_assign. destruct a, b; cbn; auto.
-  - intros a b L. unfold w_move_from_any, s_move_assign. destruct a, b; cbn; auto.
-  - intros a b L. unfold w_copy, s_copy_assign. destruct a, b; cbn; auto.
+  - intros a b L. unfold w_move, s_move_assign. destruct a; d2 b; cbn; auto.
+  - intros a b L. unfold w_move_from_any, s_move_assign. destruct a; d2 b; cbn; auto.
+  - intros a b L. unfold w_copy, s_copy_assign, s_copy1. destruct a; d2 b; cbn; auto.
   - intros s L. unfold w_reset. destruct s; reflexivity.
-  - intros s L. unfold w_connect_rv, s_move_assign, direct_connect. destruct s; cbn; ifs'; reflexivity.
-  - intros s L. unfold w_connect_lv, direct_connect. destruct s; cbn; ifs'; reflexivity.
+  - intros s L. unfold w_connect_rv, w_connect_rv1, s_move_assign, direct_connect. d2 s; cbn; ifs'; reflexivity.
+  - intros s L. unfold w_connect_lv, w_connect_lv1, direct_connect. d2 s; cbn; ifs'; reflexivity.
+  - intros a b L. unfold w_nest, s_copy_assign, s_copy1. destruct a; d2 b; cbn; auto.
 Qed.
+
+Lemma call_bad arg : call bad_val arg = (OThrewBad, bad_val).
+Proof. reflexivity. Qed.
 
 Lemma fstep_refines op st : step_refines (fstep op st) (fspec op (absl st)).
 Proof.
   destruct op; cbn [fstep fspec]; first [apply op1_ref | apply op2_ref].
   - intros s L. unfold f_store, f_assign, fn_place, mk, move_obj, copy_obj, fresh_obj.
     destruct s, mv, ctor; cbn; ifs'; reflexivity.
-  - intros a b L. unfold f_copy_ctor, fn_place. destruct a, b; cbn; ifs'; auto.
-  - intros a b L. unfold f_move_ctor. destruct a, b; cbn; auto.
-  - intros a b L. unfold f_copy_assign, vptr_eq, fn_place. destruct a, b; cbn; ifs'; auto.
-  - intros a b L. unfold f_move_assign. destruct a, b; cbn; auto.
-  - intros a b L. unfold f_swap. destruct a, b; cbn; auto.
+  - intros a b L. unfold f_copy_ctor, f_clone, f_clone1, fn_place. destruct a; d2 b; cbn; ifs'; auto.
+  - intros a b L. unfold f_move_ctor. destruct a; d2 b; cbn; auto.
+  - intros a b L. unfold f_copy_assign, vptr_eq, f_clone, f_clone1, fn_place. destruct a; d2 b; cbn; ifs'; auto.
+  - intros a b L. unfold f_move_assign. destruct a; d2 b; cbn; auto.
+  - intros a b L. unfold f_swap. destruct a; d2 b; cbn; auto.
   - intros s L. unfold f_reset. destruct s; reflexivity.
-  - intros s L. unfold f_invoke. destruct s; cbn; try reflexivity; destruct (call (ov o) arg); reflexivity.
+  - intros s L. unfold f_invoke, f_invoke1. d2 s; cbn [abs]; rewrite ?call_bad; try reflexivity;
+      destruct (call (ov o) arg); reflexivity.
+  - intros s L. unfold f_store_fn, fn_place, mk, move_obj, copy_obj, fresh_obj.
+    destruct s, inner_empty, mvi, mv; cbn; ifs'; reflexivity.
 Qed.
 
 Lemma trace_refines {Op} (step : Op -> state -> outcome * state) spec :
@@ -295,22 +304,3 @@ Proof.
   cbn [sstep fstep]. unfold op2. rewrite Nat.eqb_refl, !andb_false_r. repeat split.
 Qed.
 
-(* ---- F9b: a throwing copy constructor during copy assignment makes the wrapper destroy the
-   old object twice (witness replayed by the harness as a FUNX case) *)
-Lemma run_fx_embed ops st : run fxstep (map FX ops) st = run fstep ops st.
-Proof. revert st; induction ops as [|op r IH]; intro st; cbn [map run]; auto. Qed.
-
-Definition f9b_witness : list fxop :=
-  [FX (FStore 0 {| vbig := false; vcpy := true; vbeh := 0; vpay := 1; vcalls := 0 |} true false);
-   FX (FStore 1 {| vbig := false; vcpy := true; vbeh := 0; vpay := 2; vcalls := 0 |} true false);
-   FXCopyAssignThrow 0 1].
-
-Lemma throwing_copy_double_destroy_refuted :
-  exists n ops x, count_occ Nat.eq_dec (dtors (led (destroy_all (run fxstep ops (init n))))) x = 2.
-Proof. exists 2, f9b_witness, 1. vm_compute. reflexivity. Qed.
-
-Lemma function_destroyed_once_fx n ops :
-  let st := run fxstep (map FX ops) (init n) in
-  let L := led (destroy_all st) in
-  NoDup (ctors L) /\ NoDup (dtors L) /\ Permutation (ctors L) (dtors L).
-Proof. cbv zeta. rewrite run_fx_embed. apply (function_destroyed_once n ops). Qed.
